@@ -46,9 +46,11 @@ VARIABLES
     auth,     \* receiver (judge): highest 1-RTT generation of a packet that authenticated
     largest,  \* receiver: per pn space, the largest packet number registered in the RcvdJournal (-1: none)
     rcvd,     \* receiver: per pn space, the registered packet numbers
+    floor,    \* receiver: per pn space, everything up to this number was received, acknowledged and rotated out of
+              \*           the journal (-1: nothing); numbers <= floor are "too old" for decode_pn
     res       \* verdict of the last Recv
 
-vars == <<sgen, sconf, cur, slot, auth, largest, rcvd, res>>
+vars == <<sgen, sconf, cur, slot, auth, largest, rcvd, floor, res>>
 
 -----------------------------------------------------------------------------
 (* packet-number reconstruction: qbase/src/packet/number.rs PacketNumber::decode, RFC 9000 A.3 *)
@@ -66,6 +68,16 @@ Reconstructs(pn, plen, expected) ==
 
 Expected(sp) == largest[PnSpace(sp)] + 1
 
+\* RcvdJournal::MAX_PN_GAP (qrecovery/src/journal/rcvd.rs, fix e72bd15 "refuse packet numbers that jump too far ahead"):
+\* the journal keeps one record per number between the oldest tracked and the largest received one, so decode_pn answers
+\* InvalidPacketNumber::TooLarge for a correctly reconstructed number more than 2^16 ahead of the next expected one and the
+\* packet is dropped.  The property quantifies over packet numbers and the sender's largest-acked, not over receivers that
+\* far behind: the judge leaves that case open.
+MaxPnGap == 65536
+TooFarAhead(p) == p.pn - Expected(p.sp) > MaxPnGap
+\* not in the journal any more or already registered: duplicate suppression is C07/C10, not C06
+OldOrDuplicate(p) == p.pn <= floor[PnSpace(p.sp)] \/ p.pn \in rcvd[PnSpace(p.sp)]
+
 -----------------------------------------------------------------------------
 (* symbolic protection *)
 \* trailing bytes after the Length of a long-header packet are not part of that packet (coalescing)
@@ -81,7 +93,8 @@ Unprotect(p, usedGen) ==
 \* the judge: what the property requires of the receive path for packet p in the current state
 Must(p) ==
     IF ~Authentic(p) \/ p.keys # "same" \/ ~Reconstructs(p.pn, p.plen, Expected(p.sp)) THEN "reject"
-    ELSE IF p.pn \in rcvd[PnSpace(p.sp)] THEN "either"        \* duplicate suppression is C07/C10, not C06
+    ELSE IF OldOrDuplicate(p) THEN "either"
+    ELSE IF TooFarAhead(p) THEN "either"                      \* ahead > 2^16 => may be dropped by the journal (e72bd15)
     ELSE IF IsLong(p.sp) THEN "accept"
     ELSE IF p.gen \in {auth, auth + 1} THEN "accept"          \* current keys, or the peer's key update
     ELSE IF p.gen = auth - 1 THEN "either"                    \* reordered packet of the previous generation: kept for a while
@@ -96,7 +109,7 @@ SlotAfter(kp) == IF NeedsUpdate(kp) THEN [slot EXCEPT ![kp] = cur + 1] ELSE slot
 CurAfter(kp) == IF NeedsUpdate(kp) THEN cur + 1 ELSE cur
 \* decrypt_{long,short}_packet: decode_pn (drops duplicates) -> [get_remote] -> decrypt_packet
 CodeAccepts(p, kp) ==
-    /\ p.pn \notin rcvd[PnSpace(p.sp)]
+    /\ ~OldOrDuplicate(p) /\ ~TooFarAhead(p)
     /\ Unprotect(p, IF IsLong(p.sp) THEN 0 ELSE SlotAfter(kp)[kp])
 
 \* the key update is performed BEFORE the packet authenticates
@@ -112,6 +125,7 @@ Init ==
     /\ auth = 0
     /\ largest = [s \in PnSpaces |-> -1]
     /\ rcvd = [s \in PnSpaces |-> {}]
+    /\ floor = [s \in PnSpaces |-> -1]
     /\ res = InitRes
 
 Reset ==
@@ -120,26 +134,28 @@ Reset ==
     /\ auth' = 0
     /\ largest' = [s \in PnSpaces |-> -1]
     /\ rcvd' = [s \in PnSpaces |-> {}]
+    /\ floor' = [s \in PnSpaces |-> -1]
     /\ res' = InitRes
 
-\* the harness put the RcvdJournal of a space at `n` (on_rcvd_pn(n) on an empty journal)
+\* the harness put the RcvdJournal of a space into the state "everything up to n received, acknowledged, confirmed and
+\* rotated out" (on_rcvd_pn / gen_ack_frame_util / on_rcvd_ack in steps of 2^16): next expected number n + 1
 Position(s, n) ==
     /\ largest' = [largest EXCEPT ![s] = Max(@, n)]
-    /\ rcvd' = [rcvd EXCEPT ![s] = @ \cup {n}]
+    /\ floor' = [floor EXCEPT ![s] = Max(@, n)]
     /\ res' = [res EXCEPT !.op = "position"]
-    /\ UNCHANGED <<sgen, sconf, cur, slot, auth>>
+    /\ UNCHANGED <<sgen, sconf, cur, slot, auth, rcvd>>
 
 \* OneRttPacketKeys::update() on the SENDING endpoint
 SenderUpdate ==
     /\ sgen' = sgen + 1 /\ sconf' = FALSE
     /\ res' = [res EXCEPT !.op = "supdate"]
-    /\ UNCHANGED <<cur, slot, auth, largest, rcvd>>
+    /\ UNCHANGED <<cur, slot, auth, largest, rcvd, floor>>
 
 \* OneRttPacketKeys::phase_out() on the receiving endpoint
 PhaseOut ==
     /\ slot' = [slot EXCEPT ![1 - Phase(cur)] = NoKey]
     /\ res' = [res EXCEPT !.op = "phaseout"]
-    /\ UNCHANGED <<sgen, sconf, cur, auth, largest, rcvd>>
+    /\ UNCHANGED <<sgen, sconf, cur, auth, largest, rcvd, floor>>
 
 \* The receive path was given packet p.  got: it returned a PlainPacket; ident: everything returned equals what was
 \* assembled; extra: number of FURTHER packets delivered out of the same datagram; reg: the caller registered p.pn
@@ -154,7 +170,7 @@ Monitor(p, got, ident, extra, reg, model, conn) ==
     /\ sconf' = (sconf \/ (good /\ p.sp = "onertt" /\ p.gen = sgen))
     /\ largest' = IF reg THEN [largest EXCEPT ![PnSpace(p.sp)] = Max(@, p.pn)] ELSE largest
     /\ rcvd' = IF reg THEN [rcvd EXCEPT ![PnSpace(p.sp)] = @ \cup {p.pn}] ELSE rcvd
-    /\ UNCHANGED sgen
+    /\ UNCHANGED <<sgen, floor>>
 
 \* design: the code-shaped machine decides
 Recv(p, kp) ==
